@@ -304,7 +304,7 @@ func gen(rng *rand.Rand, id, prefixNo int) *spec {
 	return s
 }
 
-// genCommitFault gives a quarter of the committing transactions a failure in the commit phase.
+// genCommitFault gives two fifths of the committing transactions a failure in the commit phase.
 func genCommitFault(rng *rand.Rand, s *spec) {
 	// Cancelling a context after the call it was passed to has returned is not a fault.
 	for i := range s.Steps {
@@ -316,7 +316,7 @@ func genCommitFault(rng *rand.Rand, s *spec) {
 	if rng.Intn(12) == 0 {
 		s.CommitCtx = 3
 	}
-	if s.End != "commit" || s.LoseFrom >= 0 || s.ConflictKey != "" || rng.Intn(4) != 0 {
+	if s.End != "commit" || s.LoseFrom >= 0 || s.ConflictKey != "" || rng.Intn(5) >= 2 {
 		return
 	}
 	s.CommitFault = []string{"primary-rolled-back", "primary-rolled-back", "primary-rolled-back", "failpoint", "failpoint", "not-leader", "server-busy", "drop-req", "drop-resp-cancel"}[rng.Intn(9)]
@@ -1488,7 +1488,27 @@ func answerClause(sig string) bool {
 	return false
 }
 
-func runUniverse(t *testing.T, r, ar *vrep.Report, rng *rand.Rand, uniNo, nCases int, firstID int) {
+// failureFreeEnd reports whether the end of the transaction was failure-free in the sense of C06: Commit returned
+// nil or a definite error, or Rollback was called, and no request or response of the transaction was lost (region
+// errors, splits, held requests, a resolver of another client and an injected definite failure are not losses).
+func failureFreeEnd(rec *caseRec) bool {
+	if rec.undetermined || rec.ended == "" {
+		return false
+	}
+	rec.plan.mu.Lock()
+	defer rec.plan.mu.Unlock()
+	if rec.plan.commitRequestLost || rec.plan.cancelledDuring {
+		return false
+	}
+	for k, n := range rec.plan.counts {
+		if n > 0 && (strings.Contains(k, "drop-") || strings.Contains(k, "lost")) {
+			return false
+		}
+	}
+	return true
+}
+
+func runUniverse(t *testing.T, r, ar, lr *vrep.Report, rng *rand.Rand, uniNo, nCases int, firstID int) {
 	violate := func(sig, msg string, detail any) {
 		r.Violate("e2e:"+sig, msg, detail)
 		if answerClause(sig) {
@@ -1592,6 +1612,9 @@ func runUniverse(t *testing.T, r, ar *vrep.Report, rng *rand.Rand, uniNo, nCases
 		lv, _ := checkTruth(rec, truths[rec], locks, calls, 1)
 		for _, v := range lv {
 			violate(v.sig, v.msg, v.detail)
+			if strings.HasPrefix(v.sig, "truth:lock-left:") && failureFreeEnd(rec) {
+				lr.Violate("pipelined:"+v.sig, v.msg, v.detail)
+			}
 		}
 	}
 	// Recovery: the clock passes every ttl, an observer reads every key (which resolves whatever lock is left)
@@ -1651,6 +1674,31 @@ func runUniverse(t *testing.T, r, ar *vrep.Report, rng *rand.Rand, uniNo, nCases
 		tv, _ := checkTruth(rec, truths[rec], locks, calls, 2)
 		for _, v := range append(wv, tv...) {
 			violate(v.sig, v.msg, v.detail)
+			if strings.HasPrefix(v.sig, "truth:lock-left:") && failureFreeEnd(rec) {
+				lr.Violate("pipelined:"+v.sig, v.msg, v.detail)
+			}
+		}
+		if failureFreeEnd(rec) {
+			// the C06 monitor: one ended transaction judged for leftover locks
+			end := rec.ended
+			if end == "commit" && !rec.committed {
+				end = "failed-commit"
+			}
+			flushedAny := ws.applied > 0
+			lr.Eval(1)
+			lr.Count("ends_judged", 1)
+			lr.Count("end:"+end, 1)
+			if flushedAny {
+				lr.Count("ends_with_flushed_locks", 1)
+				lr.Count("end_with_flushed_locks:"+end, 1)
+			}
+			lr.Count("owner_resolve_lock_rpcs", ws.ownerResolves)
+			lr.Distinct(fmt.Sprintf("%s|%s|flushed=%v|left=%v", s.Shape, end, flushedAny, rec.lockLeftReported))
+			if flushedAny && lr.SampleN() < 3 && s.ID%4 == 1 {
+				lr.Sample(map[string]any{"case": s.ID, "shape": s.Shape, "end": end, "end_error": rec.endErr, "keys": s.Keys, "splits": rec.splitsDone, "flush_rpcs_applied": ws.applied, "owner_resolve_lock_rpcs": ws.ownerResolves, "faults": rec.faults, "lock_left": rec.lockLeftReported})
+			}
+		} else {
+			lr.Count("ends_skipped_request_lost_or_undetermined", 1)
 		}
 		r.Eval(1 + ws.generations + len(s.Keys))
 		r.Count("programs", 1)
@@ -1778,16 +1826,23 @@ func TestVerifC16(t *testing.T) {
 	defer r.Finish(t)
 	ar := vrep.New("C03", "c03-on-c16", "truthfulness of Commit's answer for the pipelined commit mode, judged on the C16 e2e executions: every Commit of a generated pipelined transaction on unistore (flush faults, write conflicts; commit-phase faults: primary lock rolled back by another client's resolver right before the Commit RPC, failpoint pipelinedCommitFail after the commit ts was fetched, NotLeader/ServerIsBusy/lost request on the Commit RPC, lost response with the caller's context cancelled, context cancelled when the Commit request is sent; contexts cancelled after return) is compared, after drain, clock past every ttl and observer reads, with the MVCC truth: nil => every written key carries its latest write at the primary's single commit ts; definite error => no version of the transaction exists and no observer ever sees its values; undetermined only when a commit-point request was lost or cancelled in flight; a Commit request that stayed unanswered is never reported as a plain error; distinct = distinct (commit fault kind, context kind, answer class, outcome in the truth)")
 	defer ar.Finish(t)
+	lr := vrep.New("C06", "c06-on-c16", "leftover locks of pipelined transactions, judged on the C16 e2e executions: every generated pipelined transaction on unistore whose end was failure-free (Commit nil, Commit with a definite error - write conflict, flush error from a region-level cause, primary rolled back by another client's resolver, failpoint pipelinedCommitFail -, or Rollback; no request or response of it was lost and the answer was not undetermined; region errors, splits at an RPC, requests held in flight and contexts cancelled after return are not failures) is judged after the drain of all background work, before anybody else touches its keys: the lock scan and MvccGetByKey of the un-recorded store show no lock of its start ts (re-checked with a ten-fold bound), over region layouts with the largest/smallest flushed key on a border and single flushed keys; distinct = distinct (shape, end kind, flushed anything, lock left)")
+	defer lr.Finish(t)
 	_ = failpoint.Enable("tikvclient/fastBackoffBySkipSleep", "return")
 	defer failpoint.Disable("tikvclient/fastBackoffBySkipSleep")
 	rng := vrep.Rand("c16-e2e")
 	nUni := vrep.Pick(2, 8)
 	nCases := vrep.Pick(300, 600)
 	for i := 0; i < nUni; i++ {
-		runUniverse(t, r, ar, rng, i, nCases, i*nCases)
+		runUniverse(t, r, ar, lr, rng, i, nCases, i*nCases)
 		r.Flush()
 		ar.Flush()
+		lr.Flush()
 	}
+	lr.Floor("ends_judged", 300)
+	lr.Floor("end:rollback", 50)
+	lr.Floor("end:failed-commit", 50)
+	lr.Floor("ends_with_flushed_locks", 200)
 	ar.Floor("commits_judged", 300)
 	ar.Floor("answer:undetermined", 10)
 	ar.Floor("answer:definite-error", 50)
